@@ -958,14 +958,34 @@ func (F *bfn) floatFacts(z *zone, v ssa.Value, b *ssa.BasicBlock) {
 	for _, f := range factsAt(b) {
 		cond, truth := normCond(f.Cond, f.Truth)
 		cmp, ok := cond.(*ssa.BinOp)
-		if !ok || cmp.X != x {
+		if !ok {
 			continue
 		}
-		k, ok := constFloat(cmp.Y)
+		op := cmp.Op
+		var k float64
+		switch {
+		case cmp.X == x:
+			k, ok = constFloat(cmp.Y)
+		case cmp.Y == x:
+			k, ok = constFloat(cmp.X)
+			switch op { // mirror: k OP x  ==  x OP' k
+			case token.LSS:
+				op = token.GTR
+			case token.LEQ:
+				op = token.GEQ
+			case token.GTR:
+				op = token.LSS
+			case token.GEQ:
+				op = token.LEQ
+			}
+		default:
+			continue
+		}
 		if !ok {
 			continue
 		}
 		fl := int64(k)
+		cmp = &ssa.BinOp{Op: op, X: cmp.X, Y: cmp.Y}
 		switch {
 		case (cmp.Op == token.GTR && !truth) || (cmp.Op == token.LEQ && truth):
 			z.add(me.a, "0", fl-me.k) // x <= k => int(x) <= floor(k)
